@@ -151,6 +151,14 @@ func runProperty(g *Gen, prop string, cfg SolverCfg, findings []*Finding) ([]*fn
 		sort.SliceStable(mine, func(a, b int) bool { return mine[a].NAsserts < mine[b].NAsserts })
 		fc.obls = mine
 	}
+	// pure lemmas over spec macros
+	for _, lm := range g.lemmas {
+		if !hasProp(lm.Props, prop) {
+			continue
+		}
+		fc := g.lemmaCtx(lm)
+		results = append(results, &fnResult{key: fc.name, fc: fc})
+	}
 	sem := make(chan struct{}, 4)
 	for _, r := range results {
 		if r.fc.err != nil {
